@@ -48,14 +48,14 @@ rows, caught = [], 0
 for i in ids:
     m = json.load(open(os.path.join(S, i, "meta.json")))
     r = json.load(open(os.path.join(S, i, "result.json")))
-    rnd = {"A": 1, "B": 1, "C": 2, "D": 2, "E": 3, "F": 3, "G": 4, "H": 4, "I": 5, "J": 5}[i[-1]]
+    rnd = {"A": 1, "B": 1, "C": 2, "D": 2, "E": 3, "F": 3, "G": 4, "H": 4, "I": 5, "J": 5, "K": 6}[i[-1]]
     for chk, v in r.items():
         ok = v["exit"] == 1 and "VIOLATION" in v["verdict"]
         caught += ok
         clip = lambda t: re.sub(r"\s+", " ", str(t)).replace("|", "/")[:140]
         rows.append("| %s | %d | %s | %s | %s | %s | %s |" % (i, rnd, chk, "caught" if ok else "MISSED", v.get("replay_kind", ""), clip(m.get("breaks", "")), clip(m.get("needs_to_manifest", ""))))
 out = ["# Seeded breaking changes", "",
-       "Five rounds of fresh sub-agents (one property text and a scratch worktree each, nothing from /verif) wrote %d changes that break a property while the crate "
+       "Six rounds of fresh sub-agents (one property text and a scratch worktree each, nothing from /verif) wrote %d changes that break a property while the crate "
        "compiles and the 41 pinned tests pass. Each was confirmed here (suite passes with it; its demonstration fails with it and passes without) before being kept: "
        "`patch.diff`, the demonstration, `meta.json` (the author's description plus our confirmation) and `result.json` (the verdict of `tools/run_seeded.py <id>`: "
        "apply to /repo, run the quick check, revert)." % len(ids), "",
@@ -69,6 +69,19 @@ out += ["* `%s` — %s" % (k, v) for k, v in PRE4.items()]
 out += ["", "Round 5 (`..I`, `..J`; a blind round again: nothing was read before the first run): 26 of 34 caught with a failing input on the first run, 3 reported as "
         "`no-failing-input-found`, 5 missed:", ""]
 out += ["* `%s` — %s" % (k, v) for k, v in R5.items()]
+R6 = {
+    "C05K": "missed: `PeriodicTable::get` made forgiving about capitalisation with Unicode-aware case mapping: `B` + U+212A KELVIN SIGN is accepted as Bk. No non-ASCII "
+            "character whose case mapping lands on an ASCII letter was in any alphabet (and `to_uppercase` is outside the element translator's subset: tie unavailable). "
+            "Now every table key is also fed with one letter replaced by such a twin (Kelvin sign, long s, dotless i, dotted I, sharp s, fi ligature, fullwidth and Cyrillic look-alikes), "
+            "alone, grouped and counted; the same twins in C16's mutated stream",
+    "C09K": "missed: requests are clamped to 300 terms (`MAX_ORDER`): needs a fixed request of 302..320 on a molecule of a few hundred kDa -- beyond the stated domain's size "
+            "(atom counts up to several thousand); one such composition (C15000H30000O15000, requests 301, 302, 320) was added",
+    "C10K": "missed by C10's check (C08's history sweep contains the pattern): the generator object memoises its last answer ignoring the carrier. C10 now asks one "
+            "long-lived generator object for the same (composition, request, charge) twice in a row with two carriers, then for the neutral pattern, and judges both by the property's relation",
+    "C11K": "`no-failing-input-found` at first: a thread-local workspace that is not cleared after a nothing-survives call made the next call return so many peaks that the "
+            "case file could not be evaluated; an output with more peaks than the composition has isotope arrangements is now a failing input by counting alone"}
+out += ["", "Round 6 (`..K`; one change per property, blind): 13 of 17 caught with a failing input on the first run, 1 reported as `no-failing-input-found`, 3 missed:", ""]
+out += ["* `%s` — %s" % (k, v) for k, v in R6.items()]
 out += ["", "After those additions all %d of %d are caught by the current checks (last full run of all patches: see the `result.json` files), each with a concrete failing input "
         "in the replay (`replay_kind`)." % (caught, len(rows)), "",
         "| id | round | check | verdict | replay | breaks | needs |", "|----|-------|-------|---------|--------|--------|-------|"] + rows
